@@ -144,7 +144,9 @@ class PersistentVector(
         return self._inner[item]
 
     def __hash__(self):
-        return hash(self._inner)
+        # Vectors are equal to any other sequential collection with the same elements
+        # in the same order, so they must hash like lists, seqs and queues do
+        return hash(tuple(self._inner))
 
     def __iter__(self):
         yield from self._inner
